@@ -34,7 +34,7 @@ m = {
     "engines": [{"name": "oryxcheck", "path": "/verif/checker", "serves_properties": sorted(CLAIMED),
                  "kind_free_text": "repository-specific static analyser over go/types + go/ssa + VTA call graph (x/tools v0.29.0): guard/dominator facts, must-hold locksets, effect summaries, CFG ordering, error-flow, table/switch extraction, bit-provenance abstract interpretation"}],
     "checks": checks,
-    "notes": "Every check re-loads and type-checks /repo's working tree on each run; verdicts name file:line, function, rule and construct. Known findings: /verif/known_findings.json (8 open constructs: C06 strict-array layout x4, C02 extended-timestamp delta x3, C17 scanner token limit; everything else is recorded as fixed by a 'fix:' commit in /repo). DESIGN.md section 7 describes the machinery as built, the defects found and repaired, the false alarms met, and which rule reports each of the 308 seeded changes (six rounds) under /verif/seeded (replayed by the thorough tier on scratch copies outside /repo and /verif; tools/run_seeded.sh replays all of them). Section 7.7: the 401 behaviour-preserving refactorings under /verif/benign (four samples; measured silence rates and the remaining limits are in DESIGN 7.7) (thorough tier replays them too; tools/run_benign.sh runs all twenty checks on each).",
+    "notes": "Every check re-loads and type-checks /repo's working tree on each run; verdicts name file:line, function, rule and construct. Known findings: /verif/known_findings.json (8 open constructs: C06 strict-array layout x4, C02 extended-timestamp delta x3, C17 scanner token limit; everything else is recorded as fixed by a 'fix:' commit in /repo). DESIGN.md section 7 describes the machinery as built, the defects found and repaired, the false alarms met, and which rule reports each of the 368 seeded changes (seven rounds) under /verif/seeded (replayed by the thorough tier on scratch copies outside /repo and /verif; tools/run_seeded.sh replays all of them). Section 7.7: the 401 behaviour-preserving refactorings under /verif/benign (four samples; measured silence rates and the remaining limits are in DESIGN 7.7) (thorough tier replays them too; tools/run_benign.sh runs all twenty checks on each).",
     "not_applicable": na,
 }
 json.dump(m, open(os.path.join(ROOT, "MANIFEST.json"), "w"), indent=1)
